@@ -163,7 +163,7 @@ func actorKind(m *model.Model, actor int) string {
 	case actor == Unknown:
 		return "unknown-tx"
 	case m.Finished(actor):
-		return "finished-" + m.Txs[actor].Level.String()
+		return "finished-tx"
 	case m.Txs[actor].State == model.TxOpen:
 		return m.Txs[actor].Level.String()
 	}
